@@ -35,7 +35,7 @@ def fresh(v):
     if t is bytes:
         return bytes(bytearray(v))
     if t is int and not isinstance(v, bool):
-        return int(str(v))
+        return int(hex(v), 16)
     return v
 
 
